@@ -267,9 +267,16 @@ class BaseTableCoordinate(abc.ABC):
         A gWCS object representing all the coordinates.
         """
         model = self.model
+        input_frame = _generate_generic_frame(model.n_inputs, u.pix)
+        output_frame = self.frame
+        if output_frame.name == input_frame.name:
+            # A table in pixel units gets a frame of the same name as the input frame,
+            # which gWCS does not allow within one pipeline.
+            input_frame = cf.CoordinateFrame(input_frame.naxes, input_frame.axes_type, input_frame.axes_order,
+                                             unit=input_frame.unit, name="InputPixelFrame")
         return gwcs.WCS(forward_transform=model,
-                        input_frame=_generate_generic_frame(model.n_inputs, u.pix),
-                        output_frame=self.frame)
+                        input_frame=input_frame,
+                        output_frame=output_frame)
 
     @property
     def dropped_world_dimensions(self):
